@@ -760,10 +760,9 @@ class Solver:
         for st in self.structures:
             connected_sets = []
             for _set in sets:
-                for target in st.connected_to:
-                    if target in _set:
-                        _set.add(st)
-                        connected_sets.append(_set)
+                if any(target in _set for target in st.connected_to):
+                    _set.add(st)
+                    connected_sets.append(_set)
             for _set in connected_sets:
                 sets.remove(_set)
             if len(connected_sets) == 0:
